@@ -1,7 +1,7 @@
 (* C08  A request that fails leaves no trace. *)
 From Coq Require Import List Bool.
 From Minidyn Require Import Base.Str Base.FMap Base.Outcome Model.Value Model.Key Model.Index Model.Table Model.Client.
-From Minidyn Require Import Proofs.KV Proofs.ClientFacts.
+From Minidyn Require Import Proofs.KV Proofs.ClientFacts Proofs.BatchAtomic.
 Import ListNotations.
 
 (* every single-request data operation whose result is not a success (any error class, documented or runtime panic)
@@ -32,6 +32,16 @@ Theorem C08_rejected_batch_no_trace :
      negb (match flat_map (prevalidate_table c) reqs with [] => true | _ => false end)) = true ->
     fst (batch_write lm sdk c reqs) = c /\ res_ok (o_res (snd (batch_write lm sdk c reqs))) = false.
 Proof. exact batch_rejected_no_trace. Qed.
+
+(* ... and so is EVERY batch that fails: in any client of any history, with no failure emulated, a BatchWriteItem that
+   does not succeed has changed nothing - once the validation in front of the loop has passed no request can fail, so
+   there is no failure after a write (table names: those the SDK v1 request validation admits) *)
+Theorem C08_failed_batch_no_trace :
+  forall lm lu sdk ops cn c reqs,
+    lookup cn (fst (run lm lu sdk [] ops)) = Some c ->
+    c_failure c = None -> (forall tn, In tn (keys reqs) -> v1_name_ok sdk tn = true) ->
+    res_ok (o_res (snd (batch_write lm sdk c reqs))) = false -> fst (batch_write lm sdk c reqs) = c.
+Proof. exact failed_batch_no_trace_reachable. Qed.
 
 (* reads never modify anything *)
 Theorem C08_reads_are_pure :
